@@ -2,17 +2,17 @@
 CHECKS = {
  "C09": {
   "level": "model_checking",
-  "technique": "TLA+ spec (Fragments.tla) model-checked with TLC; every model transition replayed on the real FragmentAssembler (state-graph edge replay)",
-  "text": "TLC exhaustively checks that the implementation-shaped layer of Fragments.tla refines the protocol-level layer (return value on every call, held data, isolation) for 2-3 interleaved sequences, every arrival order, duplicates, out-of-range ids, header first/middle/last, expiry and clear; the as-coded and the weakened switch settings are required to produce counterexamples (non-vacuity). Every transition of the emitted state graph is then executed on the real object from its source state and the returned bytes and held pieces are compared with the abstract layer. Each edge is replayed with three payload maps, one of them giving the header fragment an atom-cache section, which must come out in front of the message.",
+  "technique": "TLA+ spec (Fragments.tla) model-checked with TLC; every model transition replayed on the real FragmentAssembler (state-graph edge replay), then every PATH of the graphs up to a depth; expiry per sequence in FragmentsTimed.tla with ticks bound through a guarded hook",
+  "text": "TLC exhaustively checks that the implementation-shaped layer of Fragments.tla refines the protocol-level layer (return value on every call, held data, isolation) for 2-3 interleaved sequences, every arrival order, duplicates, out-of-range ids, header first/middle/last, expiry and clear; the as-coded and the weakened switch settings are required to produce counterexamples (non-vacuity). Every transition of the emitted state graph is then executed on the real object from its source state and the returned bytes and held pieces are compared with the abstract layer. Each edge is replayed with three payload maps, one of them giving the header fragment an atom-cache section, which must come out in front of the message. FragmentsTimed.tla adds per-sequence ages (abstract and implementation layer), Tick and a cleanup that forgets exactly the expired sequences (invariants HoldsExactly, AgesAgree; switch LateHeaderRefreshes must yield a counterexample); its graph is replayed the same way, time passing through the hook verif_backdate. Because the real object may keep state the correct model does not distinguish, every path of the graphs (4 steps untimed, 6 timed: 908 022 paths) is also driven and each step compared with the access-path observation of the same model edge.",
   "design_ref": "DESIGN.md §5 C09, §2.2 B2",
-  "note": "Bounded: <=2 sequences x n<=4 (thorough) / n<=3 (quick) fragments in the replayed graph; tokens stand for payloads (two payload maps). Trusted: TLC, harness edge replayer, guarded read-only hook verif_snapshot.",
+  "note": "Bounded: <=2 sequences x n<=4 (thorough) / n<=3 (quick) fragments in the replayed graph; tokens stand for payloads (two payload maps). Trusted: TLC, harness edge replayer, guarded hooks verif_snapshot (read-only) and verif_backdate (time).",
  },
 }
 CHECKS.update({
  "C01": {
   "level": "exploration",
   "technique": "TLA+ reference model of the External Term Format (Etf.tla) evaluated by TLC: universe + canonical encoder replayed into the Rust codec, and the library's bytes parsed back by the TLA+ parser",
-  "text": "Every boundary of the quantifier is a leaf of the TLC-enumerated universe (containers to depth 2, plus seeded random deep terms from the harness); the library's encoding of each value is read by an independent implementation (the TLA+ recursive-descent parser) and must denote the same value, the library's decoder must return a term denoting it, re-encoding must reproduce the bytes, and unencodable sizes must be reported as errors. Bounded universe + differential reference model, hence exploration. The quick universe includes a 16384-word reference (16-bit count x 4), the thorough one 65535-word references, 65535/65536-element lists and 65535-byte atoms.",
+  "text": "Every boundary of the quantifier is a leaf of the TLC-enumerated universe (containers to depth 2, plus seeded random deep terms from the harness); the library's encoding of each value is read by an independent implementation (the TLA+ recursive-descent parser) and must denote the same value, the library's decoder must return a term denoting it, re-encoding must reproduce the bytes, and unencodable sizes must be reported as errors; encode_to_writer must deliver the same bytes to a Vec and to writers that accept 1 / 7 bytes per call, and must fail on a writer that is full. Bounded universe + differential reference model, hence exploration. The quick universe includes a 16384-word reference (16-bit count x 4), the thorough one 65535-word references, 65535/65536-element lists and 65535-byte atoms.",
   "design_ref": "DESIGN.md §5 C01, §2.2 B1/B1'",
   "note": "Trusted: transcription of the format into Etf.tla (self-checked: parser inverts encoder and every alternative on the universe), harness build/denote projection, TLC. Depth > 2 only through random terms.",
  },
@@ -82,8 +82,8 @@ CHECKS["C05"] = {
 }
 CHECKS["C04"] = {
   "level": "model_checking",
-  "technique": "TLA+ spec of the handshake (Handshake.tla): API state machine model-checked by TLC with a weakened variant, every transition replayed on HandshakeStateMachine; peer-deviation scripts enumerated from the spec and run against the real Connection::connect over TCP with the wire transcript compared with the spec's byte layouts",
-  "text": "TLC checks ProofBeforeConnected / ProofIsFresh / NegotiatedOnlyAfterChallenge over all call sequences (any order, valid and invalid argument classes, reuse after disconnect) and finds the counterexample when disconnect keeps the challenge. Every model transition is executed on the real object for 4 parameter sets: Connected implies the model's proof, a right ack connects, flags are the bytewise AND, emitted messages equal the spec layouts, digests equal an independent MD5. All 65 peer scripts (each deviation at each peer turn incl. silence, close, oversized, out-of-order, reflected digest) run over TCP: connected exactly on the conforming path, an error within 4x timeout otherwise.",
+  "technique": "TLA+ spec of the handshake (Handshake.tla): API state machine model-checked by TLC with a weakened variant, every transition replayed on HandshakeStateMachine and every call sequence up to 4-5 calls walked on it; peer-deviation scripts enumerated from the spec and run against the real Connection::connect over TCP with the wire transcript compared with the spec's byte layouts",
+  "text": "TLC checks ProofBeforeConnected / ProofIsFresh / NegotiatedOnlyAfterChallenge over all call sequences (any order, valid and invalid argument classes, reuse after disconnect) and finds the counterexample when disconnect keeps the challenge. Every model transition is executed on the real object for 4 parameter sets: Connected implies the model's proof, a right ack connects, flags are the bytewise AND, emitted messages equal the spec layouts, digests equal an independent MD5; all call sequences of up to 4 (first parameter set and thorough: 5, 12 M) calls are walked as well and any step that behaves differently from the access-path replay of the same model edge is judged too. All 65 peer scripts (each deviation at each peer turn incl. silence, close, oversized, out-of-order, reflected digest) run over TCP: connected exactly on the conforming path, an error within 4x timeout otherwise.",
   "design_ref": "DESIGN.md §5 C04",
   "note": "MD5 uninterpreted in the spec (interpreted by python hashlib + RFC 1321 transcription). Guarded hook: EPMD port override. Real time with a 250 ms handshake timeout.",
 }
@@ -139,8 +139,8 @@ CHECKS["C15"] = {
 CHECKS["C20"] = {
   "level": "exploration",
   "technique": "range arithmetic and Elixir struct-term shapes written in TLA+ (Elixir.tla, on top of the Etf.tla codec) and enumerated by TLC with anchored 64-bit positions; records replayed into the real wrappers (len / contains / iteration / from_term on built and on decoded terms); identity oracle for wrapper, builder and proplist round trips",
-  "text": "1598 ranges with bounds at min..min+5, -3..3, max-5..max and steps incl. 0, min, max (+6 cross-anchor rows): len, size_hint, is_empty, iteration and membership must agree with the spec's element list; 160 valid Date/Time/Range struct terms (also decoded from the spec's encoding, wide integers in big form) must give their fields and 35 mutated ones (missing key, wrong module, wrong shape, wrong type, value not fitting the field) must be rejected; 31 wrapper values, 8 builder sizes and 6 proplists must survive term and wire round trips.",
+  "text": "1598 ranges with bounds at min..min+5, -3..3, max-5..max and steps incl. 0, min, max (+6 cross-anchor rows): len, size_hint, is_empty, iteration and membership must agree with the spec's element list; 264 valid Date/Time/NaiveDateTime/DateTime/Range struct terms (date-times: every zone with every utc/std offset) (also decoded from the spec's encoding, wide integers in big form) must give their fields and 90 mutated ones (missing key, wrong module, wrong shape, wrong type, value not fitting the field) must be rejected; about 70 wrapper values (all exception structs incl. absent fields, date-times with zones, map sets), builder methods and proplists must survive term and wire round trips; an arity that does not fit is rejected.",
   "design_ref": "DESIGN.md §5 C20, §7",
-  "note": "Bounded universe; date-time / map-set / exception / builder values are a fixed boundary list. Two defects fixed (52c837a range overflow, 875107e field narrowing).",
+  "note": "Bounded universe; date-time / map-set / exception / builder values are a fixed boundary list. Three defects fixed (52c837a range overflow, 875107e field narrowing, 9c97430 FunctionClauseError nil fields / arity); one recorded (C20-mapset-twins). Exception module names are compared in their unprefixed form (DESIGN 10.6).",
 }
 NOT_APPLICABLE = {}
